@@ -153,7 +153,14 @@ func (root *Root) resolve(
 	switch tt := t.(type) {
 	case *List:
 		result, ea = root.resolveList(obj, vars, field, tt, depth-1)
-	case *Object, *Schema, *Interface, *uuSchema:
+	case *Interface:
+		// Resolve as the concrete type of the object when it can be
+		// determined so __typename and fragment conditions see that type.
+		if ot := root.concreteType(obj, tt); ot != nil {
+			t = ot
+		}
+		result, ea = root.resolveFieldSels(obj, vars, field, t, depth-1)
+	case *Object, *Schema, *uuSchema:
 		result, ea = root.resolveFieldSels(obj, vars, field, t, depth-1)
 	case *NonNull:
 		result, ea = root.resolve(obj, vars, field, tt.Base, depth)
@@ -166,15 +173,22 @@ func (root *Root) resolve(
 		// will be nil so check for a @go directive then a type argument that
 		// matches the object type. If there is a match then set the meta.
 		objType := reflect.TypeOf(obj)
+		var lastErr error
+		matched := false
 		for _, m := range tt.Members {
 			if ot, _ := m.(*Object); ot != nil { // already checked in validation
 				if meta, err := ot.metaCheck(objType); err != nil {
-					return nil, []error{err}
+					// Not this member, a later one may still match.
+					lastErr = err
 				} else if objType == meta {
 					result, ea = root.resolveFieldSels(obj, vars, field, m, depth-1)
+					matched = true
 					break
 				}
 			}
+		}
+		if !matched && lastErr != nil {
+			return nil, []error{lastErr}
 		}
 	default:
 		// Validation makes sure all output types are valid so no need to
@@ -802,7 +816,7 @@ func (root *Root) resolveInline(
 	result map[string]interface{},
 	depth int) (ea []error) {
 
-	if sel.Condition == nil || sel.Condition == t {
+	if typeApplies(sel.Condition, t) {
 		ea = root.resolveSels(obj, vars, sel.Sels, t, result, depth)
 	}
 	return
@@ -816,13 +830,61 @@ func (root *Root) resolveFragRef(
 	result map[string]interface{},
 	depth int) (ea []error) {
 
-	if sel.Fragment.Condition == nil || sel.Fragment.Condition == t {
+	if typeApplies(sel.Fragment.Condition, t) {
 		ea = root.resolveSels(obj, vars, sel.Fragment.Sels, t, result, depth)
 		if 0 < len(ea) {
 			Errors(ea).in(fmt.Sprintf("fragment at %d:%d", sel.Line(), sel.Column()))
 		}
 	}
 	return
+}
+
+// typeApplies returns true if a fragment with the type condition cond applies
+// to an object of type t. It does when there is no condition, when it is the
+// type itself, an interface the object type implements, or a union the object
+// type is a member of.
+func typeApplies(cond, t Type) bool {
+	if cond == nil || cond == t {
+		return true
+	}
+	ot, _ := t.(*Object)
+	if ot == nil {
+		return false
+	}
+	switch tc := cond.(type) {
+	case *Interface:
+		for _, i := range ot.Interfaces {
+			if i == cond {
+				return true
+			}
+		}
+	case *Union:
+		for _, m := range tc.Members {
+			if m == t {
+				return true
+			}
+		}
+	}
+	return false
+}
+
+// concreteType finds the object type that implements the interface and is
+// bound to the Go type of obj, either already registered or by the @go
+// directive or name the first time the type is seen. If none is found nil is
+// returned.
+func (root *Root) concreteType(obj interface{}, it *Interface) Type {
+	meta := reflect.TypeOf(obj)
+	if t := root.getReflectType(meta); t != nil {
+		return t
+	}
+	for _, t := range root.types.list {
+		if ot, _ := t.(*Object); ot != nil && typeApplies(it, ot) {
+			if m, err := ot.metaCheck(meta); err == nil && m == meta {
+				return ot
+			}
+		}
+	}
+	return nil
 }
 
 func (root *Root) getFieldDef(t Type, name string) (fd *FieldDef) {
